@@ -198,7 +198,8 @@ func suiteWatch(t *testing.T, cfg cfgT) {
 			// (a file in the middle of being overwritten looks like that)
 			switch ext {
 			case ".json":
-				return pickInv([]string{"{{{ not valid [", fmt.Sprintf(`{"name": %q, "id"`, n), fmt.Sprintf(`{"name": %q, "id": %d}}`, n, version),
+				// (the empty string: a file truncated to zero bytes, what a non-atomic rewrite looks like half-way)
+				return pickInv([]string{"{{{ not valid [", "", fmt.Sprintf(`{"name": %q, "id"`, n), fmt.Sprintf(`{"name": %q, "id": %d}}`, n, version),
 					fmt.Sprintf(`{"name": %q, "id": %d}{"name": "tail"}`, n, version), fmt.Sprintf(`{"name": %q, "id": %d} trailing`, n, version)}), false, nil
 			case ".yml":
 				return pickInv([]string{"{{{ not valid [", fmt.Sprintf("name: %s\nid: [%d\n", n, version), fmt.Sprintf("name: %s\n  id: %d\n bad:\n- x\n", n, version)}), false, nil
